@@ -13,9 +13,9 @@ func init() {
 	register(&PropMeta{
 		ID:          "C13",
 		Level:       "other",
-		Explanation: "Decides, on every CFG path, that a backend failure leaves the hand untouched and is observed: (R1) in each hand method no store to the hand state, channel send or state update lies on any path to an error exit, and error exits return the stored state with the error; (R2) every call of a GameBackend method, and every self-driven group step (ReadyForAll/PayAnte/PayBlinds/Next issued by the hand itself), has its error tested and either returned or routed to the error callback; (R3) the engine registers an error handler before starting the hand and that handler, the open-game callback and the state-updated handler all reach the table error event; (R4) engine-side effects only on success (C10.R3 re-evaluated); (R5) the native backend works on a clone of its argument and returns a clone or nil. NOT decided: atomicity inside remote backends; that a retried action behaves identically (follows from R1/R5 only for the native backend).",
+		Explanation: "Decides, on every CFG path, that a backend failure leaves the hand untouched and is observed: (R1) in each hand method no store to the hand state, channel send, state update or invocation of one of the hand's listeners lies on any path to an error exit, and error exits return the stored state with the error; (R2) every call of a GameBackend method, and every self-driven group step (ReadyForAll/PayAnte/PayBlinds/Next issued by the hand itself), has its error tested and either returned or routed to the error callback; (R3) the engine registers an error handler before starting the hand and that handler, the open-game callback and the state-updated handler all reach the table error event; (R4) engine-side effects only on success (C10.R3 re-evaluated); (R5) the native backend works on a clone of its argument and returns a clone or nil. NOT decided: atomicity inside remote backends; that a retried action behaves identically (follows from R1/R5 only for the native backend).",
 		Rules: map[string]string{
-			"R1": "hand methods are pure on error: no hand-state store / send / state update on any path to an error exit; error exits return (stored state, err)",
+			"R1": "hand methods are pure on error: no hand-state store / send / state update / listener invocation on any path to an error exit; error exits return (stored state, err)",
 			"R2": "every backend error is tested and propagated to the caller or to the error callback; never dropped; nothing is updated on the failing branch; no known-nil error returned (inverted test)",
 			"R3": "error callback registered before Start; it and the engine's own step handlers reach the table error event; every On<X> setter of the hand and of the engine stores the callback into its own slot; a new engine's callback slots default to the same-named callbacks; the manager registers every callback of the caller's callbacks struct through the same-named setter",
 			"R4": "engine action methods: effects only under err == nil (same analysis as C10.R3)",
@@ -27,8 +27,15 @@ func init() {
 	})
 }
 
-func gameWatch() *Watch {
-	return &Watch{Name: "handstate", Direct: func(p *Prog, in ssa.Instruction) bool {
+func gameWatch() *Watch { return gameWatchL(false) }
+
+// gameWatchL: with listeners set, invoking one of the hand's listeners counts as an effect too (R1).
+func gameWatchL(listeners bool) *Watch {
+	name := "handstate"
+	if listeners {
+		name = "handstate+listeners"
+	}
+	return &Watch{Name: name, Direct: func(p *Prog, in ssa.Instruction) bool {
 		if ss := p.storeSite(in); ss != nil {
 			if storeIsLocal(in) {
 				return false
@@ -42,6 +49,15 @@ func gameWatch() *Watch {
 		if ci, ok := in.(ssa.CallInstruction); ok {
 			if b, isB := ci.Common().Value.(*ssa.Builtin); isB && b.Name() == "close" {
 				return true
+			}
+			// a listener of the hand invoked through one of its callback slots: what it does with the
+			// state it is given is outside the hand method's control (the engine's error listener stores it)
+			if listeners && !ci.Common().IsInvoke() && ci.Common().StaticCallee() == nil {
+				if _, isB := ci.Common().Value.(*ssa.Builtin); !isB {
+					if v := p.Sym(ci.Common().Value).Strip(); v.Kind == "field" && v.Owner == "game" {
+						return true
+					}
+				}
 			}
 		}
 		return false
@@ -68,7 +84,8 @@ func checkC13(c *Ctx) {
 		c.Bad("R1", "anchors", "-", "Game implementation not found")
 		return
 	}
-	gw := gameWatch()
+	_ = gameWatch
+	gwL := gameWatchL(true)
 	// R1
 	n := 0
 	for _, f := range p.Methods(gt) {
@@ -77,7 +94,7 @@ func checkC13(c *Ctx) {
 		}
 		n++
 		where := p.Pos(f.Pos())
-		imps := p.ErrorImpurities(f, gw)
+		imps := p.ErrorImpurities(f, gwL)
 		if len(imps) == 0 {
 			c.Ok("R1", fnName(f)+":pure-on-error", where, "no hand-state mutation on any path to an error exit")
 		}
@@ -110,86 +127,7 @@ func checkC13(c *Ctx) {
 	c.Min("R1", "hand methods with an error result", n, 14)
 
 	// R2: backend calls and self-driven steps
-	var sites []*ssa.Call
-	gameFns := map[*ssa.Function]bool{}
-	for _, f := range p.Methods(gt) {
-		gameFns[f] = true
-	}
-	inGame := func(f *ssa.Function) bool {
-		for x := f; x != nil; x = x.Parent() {
-			if gameFns[x] {
-				return true
-			}
-		}
-		return false
-	}
-	for _, f := range p.Funcs {
-		for _, ci := range Calls(f) {
-			call, ok := ci.(*ssa.Call)
-			if !ok {
-				if isBackendCall(ci.Common()) {
-					c.Bad("R2", "backend-call-go-defer:"+FuncName(f), p.InstrPos(ci), "backend method invoked by go/defer: its error is lost")
-				}
-				continue
-			}
-			if isBackendCall(call.Common()) {
-				sites = append(sites, call)
-				continue
-			}
-			if sc := call.Common().StaticCallee(); sc != nil && gameFns[sc] && inGame(f) && f.Parent() != nil && errResultIndex(sc.Signature) >= 0 {
-				sites = append(sites, call) // self-driven step inside a completion closure
-			}
-		}
-	}
-	nb := 0
-	for _, call := range sites {
-		nb++
-		f := call.Parent()
-		key := FuncName(f) + ":" + calleeName(call.Common())
-		where := p.InstrPos(call)
-		errV := callErrValue(call)
-		if errV == nil {
-			c.Bad("R2", key, where, "backend error result is discarded")
-			continue
-		}
-		handled, updatedOnFail := false, false
-		tested := false
-		for _, b := range f.Blocks {
-			for _, in := range b.Instrs {
-				gs := p.Guards(in)
-				failing := nilGuard(gs, false, func(s *Sym) bool { return s.V == errV })
-				if !failing {
-					continue
-				}
-				tested = true
-				switch x := in.(type) {
-				case *ssa.Return:
-					ei := errResultIndex(f.Signature)
-					if ei >= 0 && retValue(x, ei) == errV {
-						handled = true
-					}
-				case ssa.CallInstruction:
-					cm := x.Common()
-					if !cm.IsInvoke() && cm.StaticCallee() == nil && p.Sym(cm.Value).Strip().IsField("game", "onGameErrorUpdated") {
-						for _, a := range cm.Args {
-							if a == errV {
-								handled = true
-							}
-						}
-					}
-					if sc := cm.StaticCallee(); sc != nil && p.IsRepoFunc(sc) && p.MayMutate(sc, gw) {
-						updatedOnFail = true
-					}
-				}
-				if gw.Direct(p, in) {
-					updatedOnFail = true
-				}
-			}
-		}
-		c.Check(tested && handled, "R2", key, where, "error tested and propagated / reported", fmt.Sprintf("backend error is not observed (tested=%v, returned-or-reported=%v)", tested, handled))
-		c.Check(!updatedOnFail, "R2", key+":no-update-on-failure", where, "nothing updated on the failing branch", "hand state is updated on the branch where the backend call failed")
-	}
-	c.Min("R2", "backend calls and self-driven steps", nb, 17)
+	checkBackendErrors(c, "R2", gt, func(*ssa.Call) bool { return true }, 17)
 
 	// R3 wiring
 	checkC13Wiring(c)
@@ -567,4 +505,97 @@ func checkNativeBackend(c *Ctx) {
 func rawLocalSym(s *Sym) bool {
 	s = s.Strip()
 	return s.V != nil && rawLocal(s.V) || s.Root().Kind == "alloc" || s.Root().Kind == "new"
+}
+
+// checkBackendErrors: every call of a GameBackend method (and every self-driven group step issued from a
+// completion closure of the hand) has its error tested and either returned to the caller or routed to the
+// error callback, and nothing is updated on the failing branch.
+func checkBackendErrors(c *Ctx, rule string, gt *types.Named, filter func(*ssa.Call) bool, min int) {
+	p := c.P
+	gw := gameWatch()
+	// R2: backend calls and self-driven steps
+	var sites []*ssa.Call
+	gameFns := map[*ssa.Function]bool{}
+	for _, f := range p.Methods(gt) {
+		gameFns[f] = true
+	}
+	inGame := func(f *ssa.Function) bool {
+		for x := f; x != nil; x = x.Parent() {
+			if gameFns[x] {
+				return true
+			}
+		}
+		return false
+	}
+	for _, f := range p.Funcs {
+		for _, ci := range Calls(f) {
+			call, ok := ci.(*ssa.Call)
+			if !ok {
+				if isBackendCall(ci.Common()) {
+					c.Bad(rule, "backend-call-go-defer:"+FuncName(f), p.InstrPos(ci), "backend method invoked by go/defer: its error is lost")
+				}
+				continue
+			}
+			if isBackendCall(call.Common()) {
+				sites = append(sites, call)
+				continue
+			}
+			if sc := call.Common().StaticCallee(); sc != nil && gameFns[sc] && inGame(f) && f.Parent() != nil && errResultIndex(sc.Signature) >= 0 {
+				sites = append(sites, call) // self-driven step inside a completion closure
+			}
+		}
+	}
+	nb := 0
+	for _, call := range sites {
+		if !filter(call) {
+			continue
+		}
+		nb++
+		f := call.Parent()
+		key := FuncName(f) + ":" + calleeName(call.Common())
+		where := p.InstrPos(call)
+		errV := callErrValue(call)
+		if errV == nil {
+			c.Bad(rule, key, where, "backend error result is discarded")
+			continue
+		}
+		handled, updatedOnFail := false, false
+		tested := false
+		for _, b := range f.Blocks {
+			for _, in := range b.Instrs {
+				gs := p.Guards(in)
+				failing := nilGuard(gs, false, func(s *Sym) bool { return s.V == errV })
+				if !failing {
+					continue
+				}
+				tested = true
+				switch x := in.(type) {
+				case *ssa.Return:
+					ei := errResultIndex(f.Signature)
+					if ei >= 0 && retValue(x, ei) == errV {
+						handled = true
+					}
+				case ssa.CallInstruction:
+					cm := x.Common()
+					if !cm.IsInvoke() && cm.StaticCallee() == nil && p.Sym(cm.Value).Strip().IsField("game", "onGameErrorUpdated") {
+						for _, a := range cm.Args {
+							if a == errV {
+								handled = true
+							}
+						}
+					}
+					if sc := cm.StaticCallee(); sc != nil && p.IsRepoFunc(sc) && p.MayMutate(sc, gw) {
+						updatedOnFail = true
+					}
+				}
+				if gw.Direct(p, in) {
+					updatedOnFail = true
+				}
+			}
+		}
+		c.Check(tested && handled, rule, key, where, "error tested and propagated / reported", fmt.Sprintf("backend error is not observed (tested=%v, returned-or-reported=%v)", tested, handled))
+		c.Check(!updatedOnFail, rule, key+":no-update-on-failure", where, "nothing updated on the failing branch", "hand state is updated on the branch where the backend call failed")
+	}
+	c.Min(rule, "backend calls and self-driven steps", nb, min)
+
 }
